@@ -128,6 +128,7 @@ type LFunc struct {
 	LocalMaps map[string]string
 	Partial    bool              // the function may panic: results are wrapped with RetWrap, loops use loop_fold
 	RetWrap    string            // format applied to a returned value, e.g. "(Some %s)"; default "%s"
+	Fall       string            // for a function without results: the value of the definition when the body ends (the final state)
 }
 
 // ErrCall describes a call with effects used in the idiom  if err := CALL; err != nil { body }.
@@ -1300,6 +1301,21 @@ func (t *LT) block(l []ast.Stmt, k kont) (string, error) {
 		if c, ok := s.X.(*ast.CallExpr); ok {
 			if key, recv := t.calleeKey(c); key != "" {
 				if tmpl, ok := t.cfg.StmtCallsBy[key]; ok {
+					// the receiver of the call is a field of this function's receiver (state variable w_F)
+					if sel, ok := recv.(*ast.SelectorExpr); ok {
+						if id, ok := sel.X.(*ast.Ident); ok && id.Name == t.recv && t.recv != "" {
+							for _, f := range t.fn.RecvFields {
+								if f == sel.Sel.Name {
+									val, err := t.expand(tmpl, recv, c.Args)
+									if err != nil {
+										return "", err
+									}
+									r, err := rest()
+									return fmt.Sprintf("let w_%s := %s in\n  %s", f, val, r), err
+								}
+							}
+						}
+					}
 					if id, ok := recv.(*ast.Ident); ok {
 						if v, ok := t.env[id.Name]; ok {
 							val, err := t.expand(tmpl, recv, c.Args)
@@ -2217,7 +2233,7 @@ func TranslateLoopFunc(p *Pkg, cfg *LCfg, fn *LFunc) (string, error) {
 			}
 		}
 	}
-	body, err := t.block(t.normStmts(fd.Body.List), kont{ret: func(v string) string { return v }})
+	body, err := t.block(t.normStmts(fd.Body.List), kont{fall: fn.Fall, ret: func(v string) string { return v }})
 	if err != nil {
 		return "", fmt.Errorf("%s: %v", fn.Key, err)
 	}
